@@ -8,6 +8,8 @@ import SamlModel.Lib.Utf8
 import SamlModel.Lib.XmlMarshal
 import SamlModel.Lib.Url
 import SamlModel.Lib.C14n
+import SamlModel.Lib.Uuid
+import SamlModel.Lib.Time
 /-!
   `lib <fn> <args>`: the hand-written library models (Lib.*) as protocol operations, so that the harness can
   compare each of them with the Go function it stands for (strconv.Atoi, url.QueryEscape, strings.Fields,
@@ -123,6 +125,15 @@ def run (ts : List String) : Option String :=
     let (s, _) ← (dec [t] : Option (String × _))
     let (v, ok) := atoi s
     pure (toString v ++ " " ++ (if ok then "1" else "0"))
+  | ["timeparse", t] => do
+    -- time.Parse(DefaultTimeFormat, s): unix seconds and nanoseconds, or error
+    let (s, _) ← (dec [t] : Option (String × _))
+    pure (match Lib.Time.parseDefault s.toList with
+      | some i => "+ " ++ toString i.sec ++ " " ++ toString i.nsec
+      | none => "-")
+  | ["uuid", t] => do
+    let (b, _) ← (dec [t] : Option (Bytes × _))
+    pure (" ".intercalate (enc (String.ofList (Lib.Uuid.newID b))) ++ (if Lib.Uuid.isXsID (Lib.Uuid.newID b) then " 1" else " 0"))
   | ["qunesc", t] => do
     let (s, _) ← (dec [t] : Option (String × _))
     pure (match Lib.Url.queryUnescape s.toList with
